@@ -4,11 +4,19 @@ import TeleportModel.Driver.Loop
 namespace TM.Driver.C09
 open TM TM.Bsc
 
+/-- the world of `TM.Bsc.applyOp` (clients 0 and 1) plus, per client, the hash of its head as supplied on the op
+line that made it the head -/
 structure St where
-  sys : Option (ClientState × Store)
-  headHash : Hash
+  w : World
+  headHash : Nat → Hash
 
-def fresh : St := { sys := none, headHash := 0 }
+def fresh : St := { w := World.empty, headHash := fun _ => 0 }
+
+/-- `update` / `update@1` … : operation name and addressed client -/
+def target (s : String) : String × Nat :=
+  match s.splitOn "@" with
+  | [n, i] => (n, i.toNat?.getD 0)
+  | _ => (s, 0)
 
 def parseHdr : List String → Option (Header × List String)
   | rev :: num :: ph :: uh :: cb :: root :: tx :: rc :: bloom :: diff :: gl :: gu :: tm :: extra :: mix :: nonce :: rest => do
@@ -70,20 +78,29 @@ def dump (cs : ClientState) (st : Store) (h : Header) : String :=
   " R:" ++ listStr (rs.map (fun e => toString e.rev ++ "-" ++ toString e.num ++ "=" ++ hex (natBytes 20 e.addr))) ++
   " C:" ++ c ++ " N:" ++ toString st.cons.length
 
-def mkEnv (st : St) (head : Option Header) (h : Header) (hh : Hash) (sg : Option Addr) : Env :=
-  { hash := fun x => if x = h then hh else if some x = head then st.headHash else 0,
+def mkEnv (hhead : Hash) (head : Option Header) (h : Header) (hh : Hash) (sg : Option Addr) : Env :=
+  { hash := fun x => if x = h then hh else if some x = head then hhead else 0,
     recover := fun _ x => if x = h then sg else none }
+
+def verdictStr : Outcome Unit → String
+  | .ok _ => "ok"
+  | .err _ => "err"
+  | .panic _ => "panic"
 
 def step (st : St) (line : String) : St × String :=
   match fields line with
-  | ["reset"] => (fresh, "ok")
-  | ["cons"] =>
-    match st.sys with
+  | [] => (st, "bad-op")
+  | opw :: args =>
+  let (name, i) := target opw
+  match name, args with
+  | "reset", [] => (fresh, "ok")
+  | "cons", [] =>
+    match st.w i with
     | none => (st, "-")
     | some (_, s) =>
       let cs := sortBy (fun (a b : Cons) => keyLt a b) s.cons
       (st, listStr (cs.map (fun c => toString c.rev ++ "-" ++ toString c.num ++ "=" ++ toString c.time ++ ":" ++ hex c.root)))
-  | "create" :: chainId :: epoch :: tp :: _bt :: n :: rest =>
+  | "create", chainId :: epoch :: tp :: _bt :: n :: rest =>
     match chainId.toNat?, epoch.toNat?, tp.toNat?, n.toNat? with
     | some chainId, some epoch, some tp, some n =>
       match parseVals n rest with
@@ -92,34 +109,40 @@ def step (st : St) (line : String) : St × String :=
         | some (h, [hh, sg]) =>
           match parseHash hh, parseSigner sg with
           | some hh, some sg =>
-            match st.sys with
-            | some _ => (st, "err")
-            | none =>
-              let env := mkEnv st none h hh sg
-              match createClient env { head := h, chainId := chainId, epoch := epoch, validators := vals, trustingPeriod := tp } with
-              | .ok (cs, s) => ({ sys := some (cs, s), headHash := hh }, dump cs s h)
-              | .err _ => (st, "err")
-              | .panic _ => (st, "panic")
+            let env := mkEnv 0 none h hh sg
+            let (w', v) := applyOp env st.w (.create i { head := h, chainId := chainId, epoch := epoch, validators := vals, trustingPeriod := tp })
+            match v, w' i with
+            | .ok _, some (cs, s) =>
+              ({ w := w', headHash := fun j => if j = i then hh else st.headHash j }, dump cs s h)
+            | v, _ => (st, verdictStr v)
           | _, _ => (st, "bad-op")
         | _ => (st, "bad-op")
       | none => (st, "bad-op")
     | _, _, _, _ => (st, "bad-op")
-  | "update" :: bt :: rest =>
+  | "update", bt :: rest =>
     match bt.toNat?, parseHdr rest with
     | some bt, some (h, [hh, sg]) =>
       match parseHash hh, parseSigner sg with
       | some hh, some sg =>
-        match st.sys with
-        | none => (st, "err")
-        | some (cs, s) =>
-          let env := mkEnv st (some cs.head) h hh sg
-          match updateClient Fix.fixed env cs s bt h with
-          | .ok (cs', s') => ({ sys := some (cs', s'), headHash := hh }, dump cs' s' h)
-          | .err _ => (st, "err")
-          | .panic _ => (st, "panic")
+        let env := mkEnv (st.headHash i) ((st.w i).map (fun p => p.1.head)) h hh sg
+        let (w', v) := applyOp env st.w (.update i bt h)
+        match v, w' i with
+        | .ok _, some (cs, s) =>
+          ({ w := w', headHash := fun j => if j = i then hh else st.headHash j }, dump cs s h)
+        | v, _ => (st, verdictStr v)
       | _, _ => (st, "bad-op")
     | _, _ => (st, "bad-op")
-  | _ => (st, "bad-op")
+  | "dry", bt :: rest =>
+    match bt.toNat?, parseHdr rest with
+    | some bt, some (h, [hh, sg]) =>
+      match parseHash hh, parseSigner sg with
+      | some hh, some sg =>
+        let env := mkEnv (st.headHash i) ((st.w i).map (fun p => p.1.head)) h hh sg
+        let (_, v) := applyOp env st.w (.dry i bt h)
+        (st, "dry-" ++ verdictStr v)
+      | _, _ => (st, "bad-op")
+    | _, _ => (st, "bad-op")
+  | _, _ => (st, "bad-op")
 
 def main : IO Unit := TM.Driver.runStdin step fresh
 
